@@ -334,14 +334,20 @@ def main(tier, seed):
     rng = random.Random(seed)
     try:
         translate()
+        import c05
+        c05.translate()   # where the stored evidences come from: Reweighter.run records compute_logw_and_logz(beta) at the chosen beta
         run.obligation("translate:StateManager.compute_logw_and_logz", True)
     except Exception as e:  # fail closed: anything the translator cannot digest
         run.obligation("translate:StateManager.compute_logw_and_logz", False, str(e))
-    run.prove("Props/C04.v", link_rels=["Link/MIS.v"], allowed_axioms=STDLIB_AXIOMS_REALS)
+    run.prove("Props/C04.v", link_rels=["Link/MIS.v", "Link/Schedule.v"], allowed_axioms=STDLIB_AXIOMS_REALS)
     try:
         check_against_reference(run, tier, rng)
         correspond_interval(run, tier, rng)
         reuse_probe(run, tier, rng)
+        # the evidences the formula divides by are the ones the reweighter stored: each must be the formula's own value at its batch's
+        # temperature, given the batches before it (ESS mode incl. several iterations at one temperature; binding dynamic mode)
+        import c01
+        c01.stored_evidence_probe(run, tier)
     except Exception:
         import traceback
         run.broken.append(("harness-exception", traceback.format_exc()[-1500:]))
